@@ -251,7 +251,10 @@ class SetEncoder(encoder.SequenceEncoder):
                         **dict(options, wrapType=wrapType.componentType))
 
                 else:
-                    chunk = encodeFun(comp, compType, **options)
+                    # the inner value is not an OPTIONAL member itself:
+                    # it is encoded also when it is empty
+                    chunk = encodeFun(
+                        comp, compType, **dict(options, ifNotEmpty=False))
 
                     if wrapType.tagSet and not encoder._isValueOf(wrapType, comp):
                         chunk = encodeFun(chunk, wrapType, **options)
